@@ -202,6 +202,11 @@ func genC20(r *Rng, e *Emitter, n int) {
 		if size >= 50 {
 			e.tally("size>=50")
 		}
+		if r.chance(1, 7) && stride > 1 && len(flat) >= stride {
+			// the slice goes on for a few ordinates after the last whole point
+			flat = append(append([]float64{}, flat...), []float64{8, -3.5, 1e9, 0, 7}[:1+r.Intn(stride-1)]...)
+			e.tally("trailing-ordinates")
+		}
 		in := []float64(slot(0, flat...)) // the caller's buffer is reused for every call
 		done := false
 		short := ""
